@@ -198,7 +198,7 @@ func nativeReplay(pr *Program, pkgKey, prop string, runs []*HarnessRun, rep *Rep
 	os.WriteFile(ovFile, ovb, 0644)
 	cmd := exec.Command("go", "test", "-tags", "verif", "-vet=off", "-count=1", "-timeout", "20m", "-overlay", ovFile, "-run", "^TestVfReplay$", "./"+pkgDirs[pkgKey])
 	cmd.Dir = pr.repo
-	cmd.Env = append(goEnv(), "VF_REPLAY_DIR="+outDir, "GOCACHE="+goCacheDir())
+	cmd.Env = append(goEnv(), "VF_REPLAY_DIR="+outDir, "GOCACHE="+goCacheDir(), "VERIF_TIER="+rep.Tier)
 	outb, err := cmd.CombinedOutput()
 	if err != nil {
 		rep.Fatal = append(rep.Fatal, "native replay build/run failed: "+err.Error()+"\n"+tail(string(outb), 3000))
